@@ -52,6 +52,10 @@ pub struct Model {
     pub inv_since_tear: Option<usize>,
     /// names of the edit operations applied since the last invocation
     pub edits_since_invoke: Vec<&'static str>,
+    /// source files edited / touched / deleted / restored since the last invocation
+    pub edited_files_since_invoke: Vec<String>,
+    /// the previous invocation was a fault-free, ordinary, successful one
+    pub prev_exit0: bool,
     /// (step id -> reason) a success left no record because a reported dependency was missing
     pub norecord_dep_missing: BTreeSet<usize>,
 }
